@@ -356,6 +356,7 @@ class Facts:
         if root is None:
             return []
         out = [root]
+        expanded = set()     # closures whose code was merged into the body that passes them to an Option/Result combinator
         i = 0
         while i < len(out):
             out.extend(self.children.get(out[i].path, []))
@@ -365,6 +366,9 @@ class Facts:
                 import inline
                 if inline.has_candidates(self, b):
                     for rec in b.detail.get("inlined", []):
+                        if rec.get("combinator"):
+                            expanded.add(rec["callee"])
+                            continue
                         for h in self.by_npath.get(rec["callee"], []):
                             for ch in self.children.get(h.path, []):
                                 if ch not in out:
@@ -387,6 +391,8 @@ class Facts:
             except Exception:
                 pass
             i += 1
+        if expanded:
+            out = [b for b in out if b is root or b.npath not in expanded]
         return out
 
     def root_of(self, b):
